@@ -33,11 +33,15 @@
     weight > 0 ([fl_sizes] = sum of the combination weights; a round is then a
     permutation of the multiset of combinations, unranked by the memoised
     [compute_jth_prefix_of_permutations_with_copies], proved with the C13
-    refinement theorems of Comb/StackProofs.v / SessionProofs.v).
+    refinement theorems of Comb/StackProofs.v / SessionProofs.v) and FURTHER
+    CROSSINGS (MultiCrossBlock over plain factors, sustain 1, no preamble): the
+    first crossing is sampled, every other one is enforced by the rejection step
+    ([combinations_mismatched_weights] on each repetition), which is proved to
+    decide [Sem.crossing_ok] (Random/CrossReject.v, Random/Frag2Cross.v).
     Missing: crossed
     within-trial derived factors with uncrossed sources, LatinSquare, preambles /
-    complex windows / several crossings (where the crossing itself is checked by
-    rejection).  Outside the fragment the property is decided per run by the
+    complex windows / sustained crossings (where the sampled crossing itself is
+    checked by rejection).  Outside the fragment the property is decided per run by the
     search of harness/props/c05.py and the C04 harness (exhausted RandomGen vs.
     oracle). *)
 From Coq Require Import List.
@@ -82,3 +86,9 @@ Example C04_example_weighted :
   frag2 ex3_flat = true /\ frag1 ex3_flat = false /\ length (keys_of ex3_flat) = 96 /\
   length (accepted_keys ex3_flat) = 32 /\ check_sound ex3_flat = true.
 Proof. split; [exact ex3_frag2|]. split; [exact ex3_frag1|]. split; [exact ex3_nkeys|]. split; [exact ex3_nacc | exact ex3_sound]. Qed.
+
+(** a second crossing enforced by rejection: 162 keys, 36 accepted = 36 valid *)
+Example C04_example_multicross :
+  frag2 ex4_flat = true /\ frag1 ex4_flat = false /\ length (keys_of ex4_flat) = 162 /\
+  length (accepted_keys ex4_flat) = 36 /\ check_sound ex4_flat = true.
+Proof. split; [exact ex4_frag2|]. split; [exact ex4_frag1|]. split; [exact ex4_nkeys|]. split; [exact ex4_nacc | exact ex4_sound]. Qed.
